@@ -501,8 +501,10 @@ class Check:
             "coverage": cov, "assumptions": self.assumptions, "wall_s": round(wall, 2),
             "violations": len(violations) + len(proof_failed) + len(self.broken),
         }
-        os.makedirs(os.path.join(VERIF, "evidence"), exist_ok=True)
-        json.dump(ev, open(os.path.join(VERIF, "evidence", "%s.json" % self.pid), "w"), indent=1)
+        # runs against a scratch copy of the repository (mutation trials, VERIF_REPO) never overwrite the evidence of /repo
+        evdir = os.path.join(VERIF, "evidence") if REPO == "/repo" else os.path.join(VERIF, "evidence", ".trial")
+        os.makedirs(evdir, exist_ok=True)
+        json.dump(ev, open(os.path.join(evdir, "%s.json" % self.pid), "w"), indent=1)
         log("[%s] tier=%s seed=%d evaluations=%d distinct=%d mismatches=%d known=%d wall=%.1fs exit=%d" % (
             self.pid, self.tier, self.seed, self.evaluations, len(self.distinct), len(self.mismatches),
             len(self.known_seen), wall, exit_code))
